@@ -3,6 +3,7 @@ package main
 import (
 	"context"
 	"fmt"
+	index "github.com/blevesearch/bleve_index_api"
 	"io"
 	"os"
 	"path/filepath"
@@ -84,6 +85,8 @@ type c14Copy struct {
 	atPin  int // batches done when the copy pinned its snapshot
 	done   chan error
 	number int
+	// documents of the offline builder still in the source when the copy pinned its snapshot
+	builderDocs int
 }
 
 var c14GateSeq int32
@@ -96,9 +99,35 @@ func c14Scripted(t *Trace, r *Rng, root string, scenarios int) {
 		dir := filepath.Join(root, fmt.Sprintf("scr%d", sc))
 		conf := map[string]interface{}{"unsafe_batch": true, "eventCallbackName": name, "numSnapshotsToKeep": 1,
 			"scorchMergePlanOptions": map[string]interface{}{"maxSegmentsPerTier": 2, "segmentsPerMergeTask": 2, "floorSegmentSize": 1}}
-		idx, err := bleve.NewUsing(dir, bleve.NewIndexMapping(), scorch.Name, scorch.Name, conf)
+		// every fourth source starts life in the offline builder: its first segment file is not named after its
+		// segment id, and it holds documents outside the writer's id space until a script step deletes them
+		fromBuilder := sc%4 == 3
+		const nBuilderDocs = 8
+		builderDocsGone := !fromBuilder
+		var idx bleve.Index
+		var err error
+		if fromBuilder {
+			bld, berr := bleve.NewBuilder(dir, bleve.NewIndexMapping(), map[string]interface{}{"buildPathPrefix": root})
+			must(berr)
+			for i := 0; i < nBuilderDocs; i++ {
+				must(bld.Index(fmt.Sprintf("b%d", i), map[string]interface{}{"seq": float64(-1), "pad": "built"}))
+			}
+			must(bld.Close())
+			idx, err = bleve.OpenUsing(dir, conf)
+		} else {
+			idx, err = bleve.NewUsing(dir, bleve.NewIndexMapping(), scorch.Name, scorch.Name, conf)
+		}
 		if err != nil { // New waits for the mapping to be persisted: let the persister through
 			must(err)
+		}
+		countBuilderDocs := func(rd index.IndexReader) int {
+			nb := 0
+			for i := 0; i < nBuilderDocs; i++ {
+				if d, err := rd.Document(fmt.Sprintf("b%d", i)); err == nil && d != nil {
+					nb++
+				}
+			}
+			return nb
 		}
 		if adv, err := idx.Advanced(); err == nil {
 			if s, ok := adv.(*scorch.Scorch); ok {
@@ -145,7 +174,15 @@ func c14Scripted(t *Trace, r *Rng, root string, scenarios int) {
 			rd, err := cadv.Reader()
 			must(err)
 			docs, ints, count, err := c04Observe(rd, 1, K)
+			nb := 0
+			if fromBuilder {
+				nb = countBuilderDocs(rd)
+				count -= uint64(nb)
+			}
 			rd.Close()
+			if fromBuilder {
+				t.Emit("scripted/copy-builder-docs", true, fmt.Sprintf("echo %d", c.builderDocs), fmt.Sprint(nb))
+			}
 			if err != nil {
 				t.Emit("scripted/copy-open", true, "echo ok", "read-failed:"+oneLine(err.Error()))
 			} else {
@@ -164,6 +201,15 @@ func c14Scripted(t *Trace, r *Rng, root string, scenarios int) {
 		for st := 0; st < steps; st++ {
 			x := r.Intn(100)
 			switch {
+			case fromBuilder && !builderDocsGone && x < 12:
+				// every document of the builder's segment goes: the segment leaves the root
+				b := idx.NewBatch()
+				for i := 0; i < nBuilderDocs; i++ {
+					b.Delete(fmt.Sprintf("b%d", i))
+				}
+				must(idx.Batch(b))
+				builderDocsGone = true
+				script = append(script, "D")
 			case x < 45:
 				n++
 				b := idx.NewBatch()
@@ -181,6 +227,9 @@ func c14Scripted(t *Trace, r *Rng, root string, scenarios int) {
 				dst := filepath.Join(root, fmt.Sprintf("scr%d-copy%d", sc, copyNo))
 				gd := &c14GatedDir{FileSystemDirectory: bleve.FileSystemDirectory(dst), pinned: make(chan struct{}), release: make(chan struct{})}
 				c := &c14Copy{dir: gd, dst: dst, atPin: n, done: make(chan error, 1), number: copyNo}
+				if !builderDocsGone {
+					c.builderDocs = nBuilderDocs
+				}
 				ic := idx.(bleve.IndexCopyable)
 				go func() { c.done <- ic.CopyTo(gd) }()
 				reached := make(chan struct{}, 1)
@@ -230,6 +279,9 @@ func c14Scripted(t *Trace, r *Rng, root string, scenarios int) {
 		rd, err := adv.Reader()
 		must(err)
 		docs, ints, count, err := c04Observe(rd, 1, K)
+		if fromBuilder {
+			count -= uint64(countBuilderDocs(rd))
+		}
 		rd.Close()
 		must(err)
 		t.Emit("scripted/source-final", true, c04Line(1, []int{n}, docs, ints, count), "ok")
